@@ -50,7 +50,7 @@ RULE_VEC = ("vectors are TLC-generated behaviours of spec/Gen.tla (every visited
 def c06(res):
     t = res.tier
     mc_head(res, "language-req", invs=["InvLanguage"], kinds='{"req"}', L=fam(t, "2", "3"), alpha=ALPHA17 if t == "quick" else ALPHA11)
-    for f in fam(t, ["byte_q", "ext_q", "lane_q", "len_q"], ["byte_t", "ext_t", "ext17_t", "lane_t", "len_t"]):
+    for f in fam(t, ["byte_q", "ext_q", "lane_q", "len_q", "methods", "versions"], ["byte_t", "ext_t", "ext17_t", "lane_t", "len_t", "methods", "versions"]):
         replay_step(res, f, kinds=K_REQ, modes="base")
     if t == "thorough":
         for b in (2, 3):
@@ -63,7 +63,7 @@ def c07(res):
     t = res.tier
     mc_head(res, "language-resp", invs=["InvLanguage"], kinds='{"resp"}', L=fam(t, "2", "3"), cfgs=fam(t, "{0, 2}", "{}"),
             alpha=ALPHA17 if t == "quick" else ALPHA11)
-    for f in fam(t, ["byte_q", "ext_q", "lane_q", "len_q", "code_q"], ["byte_t", "ext_t", "ext17_t", "lane_t", "len_t", "code_t"]):
+    for f in fam(t, ["byte_q", "ext_q", "lane_q", "len_q", "code_q", "versions"], ["byte_t", "ext_t", "ext17_t", "lane_t", "len_t", "code_t", "versions"]):
         replay_step(res, f, kinds=K_RESP, modes="base")
     if t == "thorough":
         replay_step(res, "byte_t", kinds=K_RESP, modes="base", profile="dbgchk")
@@ -94,7 +94,7 @@ def c09(res):
 def c10(res):
     t = res.tier
     mc_head(res, "errkind", invs=["InvLanguage"], L=fam(t, "1", "2"), caps="{0, 1, 2, 100000}")
-    for f in fam(t, ["byte_q", "ext_q", "lines_q"], ["byte_t", "ext_t", "lines_t", "hdrext_t"]):
+    for f in fam(t, ["byte_q", "ext_q", "lines_q", "methods", "versions"], ["byte_t", "ext_t", "lines_t", "hdrext_t", "methods", "versions"]):
         replay_step(res, f, kinds=HEADS, modes="base")
     feed_traces(res, fam(t, 250000, 3000000), kinds="0,1,2")
 
@@ -102,7 +102,7 @@ def c10(res):
 def c11(res):
     t = res.tier
     mc_head(res, "honest-partial", invs=["InvHonest", "InvDeferredClosed"], L=fam(t, "1", "2"), caps="{0, 1, 2, 100000}")
-    for f in fam(t, ["byte_q", "ext_q", "chunk_q"], ["byte_t", "ext_t", "chunk_t", "lane_t"]):
+    for f in fam(t, ["byte_q", "ext_q", "chunk_q", "methods", "versions"], ["byte_t", "ext_t", "chunk_t", "lane_t", "methods", "versions"]):
         replay_step(res, f, modes="completion")
     feed_traces(res, fam(t, 250000, 3000000), kinds="0,1,2,3")
 
@@ -111,7 +111,7 @@ def c02(res):
     t = res.tier
     mc_head(res, "streaming", invs=["InvPast", "InvConsumed"], props=["PropAbsorbing", "PropFieldsMonotone", "PropHeadersAppendOnly"],
             L=fam(t, "1", "2"), caps="{0, 1, 2, 100000}")
-    for f in fam(t, ["byte_q", "ext_q", "chunk_q"], ["byte_t", "ext_t", "chunk_t", "lines_t"]):
+    for f in fam(t, ["byte_q", "ext_q", "chunk_q", "methods", "versions"], ["byte_t", "ext_t", "chunk_t", "lines_t", "methods", "versions"]):
         replay_step(res, f, modes="extend")
     feed_traces(res, fam(t, 250000, 3000000), kinds="0,1,2,3")
 
@@ -151,9 +151,17 @@ def c14(res):
     feed_traces(res, fam(t, 250000, 3000000), kinds="0,1")
 
 
+def multi(res, invs, depth, kinds=("req", "resp")):
+    for k in kinds:
+        mc_step(res, "product-" + k, "Multi",
+                "SPECIFICATION Spec\nCONSTANTS\n  PKind = \"%s\"\n  Alpha = {0, 9, 10, 13, 32, 58, 97, 127, 200}\n  Depth = %s\nINVARIANT %s\nCHECK_DEADLOCK FALSE\n"
+                % (k, depth, " ".join(invs)), workers=12, timeout=2400)
+
+
 def c15(res):
     t = res.tier
     mc_head(res, "language-allcfgs", invs=["InvLanguage"], kinds='{"req", "resp"}', L="1")
+    multi(res, ["Conservative"], fam(t, "4", "6"))
     for f in fam(t, ["ext_q", "lines_q"], ["byte_q", "ext_t", "lines_t"]):
         replay_step(res, f, kinds="0,1", modes="cfgs")
 
@@ -161,6 +169,7 @@ def c15(res):
 def c16(res):
     t = res.tier
     mc_head(res, "language-kinds", invs=["InvLanguage"], L="1")
+    multi(res, ["EntryKindsAgree"], fam(t, "4", "6"), kinds=("req",))
     for f in fam(t, ["byte_q", "ext_q", "lines_q"], ["byte_t", "ext_t", "lines_t", "lane_t"]):
         replay_step(res, f, kinds=HEADS, modes="entries,embed")
 
@@ -169,6 +178,7 @@ def c17(res):
     t = res.tier
     mc_head(res, "capacity", invs=["InvLanguage"], kinds='{"req", "resp", "hdrs"}', phases=HDR_PHASES, L=fam(t, "1", "2"),
             caps="{0, 1, 2}")
+    multi(res, ["CapacityLaw", "WithinCapacity"], fam(t, "4", "6"))
     for f in fam(t, ["lines_q", "byte_q"], ["lines_t", "byte_t", "ext_t"]):
         replay_step(res, f, kinds=HEADS, modes="entries,caplaw")
     feed_traces(res, fam(t, 250000, 3000000), kinds="0,1,2")
@@ -195,14 +205,15 @@ def c19(res):
     nostd_link(res)
     for f in fam(t, ["byte_q", "lines_q", "chunk_q"], ["byte_t", "ext_t", "lines_t", "lane_t", "chunk_t"]):
         replay_step(res, f, modes="entries")
-    replay_step(res, "lines_q", modes="entries", variant=VARIANTS["nostd"])
+    if res.extra["no_std_link"]["linked"]:
+        replay_step(res, "lines_q", modes="entries", variant=VARIANTS["nostd"])
     replay_step(res, "len_q", modes="entries", backend=3)
 
 
 def c01(res):
     t = res.tier
     mc_head(res, "total", invs=["InvTotal", "InvConsumed"], L="1", caps="{0, 1, 2, 100000}")
-    for f in fam(t, ["byte_q", "ext_q", "lane_q", "len_q", "lines_q"], ["byte_t", "ext_t", "lane_t", "len_t", "lines_t", "chunk_t"]):
+    for f in fam(t, ["byte_q", "ext_q", "lane_q", "len_q", "lines_q", "methods", "versions"], ["byte_t", "ext_t", "lane_t", "len_t", "lines_t", "chunk_t", "methods", "versions"]):
         replay_step(res, f, modes="places,entries")
         replay_step(res, f, modes="places", profile="dbgchk")
     for b in (2, 3):
@@ -356,6 +367,9 @@ def c13(res):
     replay_step(res, "len_q", modes="places", baseline=True)
     if t == "thorough":
         replay_step(res, "byte_q", modes="base", baseline=True)
+    for f in ("digits", "chunk_q", "ext_q", "code_q"):
+        replay_step(res, f, modes="base", baseline=True)
+        replay_step(res, f, modes="base", profile="dbgchk", promote=True)
     for b in (1, 2, 3):
         replay_step(res, lf, modes="places", backend=b, promote=True)
         replay_step(res, "len_q", modes="places", backend=b, profile="dbgchk", promote=True)
